@@ -412,6 +412,15 @@ class Heap:
         self.touched.add(("a2", field, None))
         self.a2[field] = fm.write(lambda r, i, j, ref=ref, cond=cond: conj(cond, ref_eq(r, ref), guard_ij(i, j)), lambda r, i, j: valf(i, j))
 
+    def set_a2(self, field, ref, nr, nc, valf):
+        """rebind ref.field to a fresh 2-D array"""
+        self._a2(field)
+        self.touched.add(("a2", field, None))
+        self.touched.add(("a2shape", field, None))
+        self.a2[field] = self.a2[field].write(lambda r, i, j, ref=ref: ref_eq(r, ref), lambda r, i, j: valf(i, j))
+        self.a2rows[field] = self.a2rows[field].write(lambda r, ref=ref: ref_eq(r, ref), lambda r: nr)
+        self.a2cols[field] = self.a2cols[field].write(lambda r, ref=ref: ref_eq(r, ref), lambda r: nc)
+
     # -- lists of objects
     def _list(self, field):
         if field not in self.llen:
